@@ -30,6 +30,8 @@ structure DState where
   oracle : List (OQ × Int) := []
   lastTx : Option LastTx := none
   begin : BeginInfo := { height := 0, byz := [], signed := [] }
+  breq : BeginReq := {}              -- the BeginBlock request as sent (votes in order)
+  liveUp : Bool := false             -- the live projection carries candidates' pending updates (`up` keys)
   lastK : Option Nat := none
   expectCom : Option String := none
   expectVer : Option String := none
@@ -296,6 +298,24 @@ partial def runDeliver (h out : IO.FS.Stream) (ds : DState) (m : State) (t : TxI
     | none => return (ds, .error (.unmodelled s!"oracle answer {a}"))
   | r => return (ds, r)
 
+/-- Run the BeginBlock model on the node's state before the block and compare with the state after it,
+    asking the harness for the float `CalculateSaleReturn` values of custom-coin slashes. -/
+partial def runBegin (h out : IO.FS.Stream) (ds : DState) (old new : State) (grace : Bool) (fuel : Nat) : IO (DState × List String) := do
+  let orc : Oracle := fun q => ds.oracle.lookup q
+  match beginCompare ds.params orc old new ds.breq grace ds.liveUp with
+  | .error (.need q) =>
+    if fuel == 0 then return (ds, ["FAIL begin oracle-loop"])
+    out.putStrLn ("?" ++ oqLine q)
+    out.flush
+    let ans ← h.getLine
+    let a := chomp ans
+    match (String.ofList (a.toList.drop 1)).toInt? with
+    | some v => runBegin h out { ds with oracle := (q, v) :: ds.oracle, nOracle := ds.nOracle + 1 } old new grace (fuel - 1)
+    | none => return (ds, [s!"FAIL begin oracle-answer {a}"])
+  | .error (.panic w) => return (ds, [s!"MISMATCH C16 begin h={ds.breq.height} model-predicts-panic={w} go=continued"])
+  | .error (.unmodelled w) => return (ds, [s!"FAIL begin unmodelled {w}"])
+  | .ok l => return (ds, l)
+
 partial def loop (h : IO.FS.Stream) (out : IO.FS.Stream) (ds : DState) : IO Unit := do
   let line ← h.getLine
   if line.isEmpty then
@@ -310,7 +330,7 @@ partial def loop (h : IO.FS.Stream) (out : IO.FS.Stream) (ds : DState) : IO Unit
                         move := n "move" 177, jail := n "jail" 354, initial := n "initial" 10200001 }
     out.putStrLn "."
     out.flush
-    loop h out { ds with params := p }
+    loop h out { ds with params := p, liveUp := kvGet a "liveup" == "1" }
   | "S" :: kind :: _ =>
     let before : Option State := if kind == "begin" || kind == "end" then some (State.ofDump ds.dump) else none
     let dumpBefore := ds.dump
@@ -364,10 +384,11 @@ partial def loop (h : IO.FS.Stream) (out : IO.FS.Stream) (ds : DState) : IO Unit
       match before with
       | some old =>
         let new := State.ofDump d
-        let deltas := chs.filterMap (fun c => match words c.key with
-          | ["b", a, cc] => some ((hexNat a, natD cc), amountOf c.key c.new - amountOf c.key c.old)
-          | _ => none)
-        for v in beginMonitor ds.params.unbond old new ds.begin deltas do
+        -- grace periods as the node builds them: 120 blocks from the start height (InitialHeight - 1) and from every version height
+        let grace := isGraceBlock (nodeGracePeriods (ds.params.initial - 1) (versionHeightsOf old.versions)) ds.breq.height
+        let (ds', msgs) ← runBegin h out ds old new grace 4096
+        ds := ds'
+        for v in msgs do
           out.putStrLn v
         if haltExpected old ds.begin.signed ds.begin.height then
           out.putStrLn s!"VIOL C20 halt-vote-passed-but-node-continued height={ds.begin.height}"
@@ -384,6 +405,9 @@ partial def loop (h : IO.FS.Stream) (out : IO.FS.Stream) (ds : DState) : IO Unit
       | some lt =>
         for v in txMonitors ds.params lt chs dumpBefore ds.block ds.comTable do
           out.putStrLn v
+        if lt.t.typ == 8 || lt.t.typ == 10 || lt.t.typ == 27 || lt.t.typ == 38 then
+          for v in stakingTxMonitor ds.params (State.ofDump dumpBefore) (State.ofDump d) lt.t lt.code ds.block do
+            out.putStrLn v
         ds := { ds with lastTx := none }
       | none => pure ()
       match ds.model with
@@ -410,7 +434,8 @@ partial def loop (h : IO.FS.Stream) (out : IO.FS.Stream) (ds : DState) : IO Unit
     let bi : BeginInfo := { height := natD (kvGet a "h"), byz := byz, signed := (votes.filter (·.2)).map (·.1), unsigned := (votes.filter (fun x => !x.2)).map (·.1) }
     out.putStrLn "."
     out.flush
-    loop h out { ds with block := natD (kvGet a "h"), nOps := ds.nOps + 1, begin := bi }
+    let breq : BeginReq := { height := natD (kvGet a "h"), votes := votes, byz := byz }
+    loop h out { ds with block := natD (kvGet a "h"), nOps := ds.nOps + 1, begin := bi, breq := breq }
   | "X" :: "divergence" :: rest =>
     out.putStrLn ("VIOL C09 cache-vs-disk " ++ " ".intercalate rest)
     out.putStrLn "."
